@@ -89,8 +89,9 @@ if prev and prev.get("checks") and not prev.get("detected_by"):
 elif prev and prev.get("checks_before_strengthening"):
     res["checks_before_strengthening"] = prev["checks_before_strengthening"]
 res["detected_by"] = [i for i, c in checks.items() if c["exit"] == 1 and c["violation"]]
+res["detected_with_failing_input"] = [i for i, c in checks.items() if c["exit"] == 1 and c["violation"] and "no-failing-input-found" not in c["violation"][0]]
 d = f"/verif/seeded/{prop}-{TAG}{mn}"
 os.makedirs(d, exist_ok=True)
 shutil.copy(diff, os.path.join(d, "patch.diff")); shutil.copy(demo, os.path.join(d, "demo_test.go"))
 json.dump(dict(meta, **res), open(os.path.join(d, "meta.json"), "w"), indent=1)
-print("DETECTED BY", res["detected_by"], "valid=", res["valid"])
+print("DETECTED BY", res["detected_by"], "CONCRETE", res["detected_with_failing_input"], "valid=", res["valid"])
